@@ -174,16 +174,31 @@ impl MuxStream {
         loop {
             // Atomic ordering: we don't really have a critical section here,
             // so `Relaxed` should be enough.
-            let original = self.psh_send_remaining.load(Ordering::Acquire);
+            let mut original = self.psh_send_remaining.load(Ordering::Acquire);
             trace!("congestion window: {original}");
             if original == 0 {
                 // We have reached the congestion window limit. Wait for an `Acknowledge`
                 debug!("waiting for `Acknowledge`");
                 self.writer_waker.register(cx.waker());
-                // Since all writes start with `poll_flush`, we don't need to
-                // flush here. There is actually no way to `poll_flush` without
-                // magic.
-                return Poll::Pending;
+                // An `Acknowledge` or a close may have landed between the checks
+                // above and `register`: its `wake()` found no waker and nobody
+                // would ever wake us. Check both conditions again now that the
+                // waker is in place; anything later than this will see it.
+                // Atomic ordering: `register` synchronizes with a `wake()` that
+                // came before it, so the stores preceding that `wake()` are
+                // visible here.
+                if self.finish_sent.load(Ordering::Relaxed) {
+                    debug!("stream has been closed, returning `BrokenPipe`");
+                    return Poll::Ready(None);
+                }
+                original = self.psh_send_remaining.load(Ordering::Acquire);
+                if original == 0 {
+                    // Since all writes start with `poll_flush`, we don't need to
+                    // flush here. There is actually no way to `poll_flush` without
+                    // magic.
+                    return Poll::Pending;
+                }
+                trace!("congestion window after registering: {original}");
             }
             let new = original - 1;
             // Atomic ordering: see the comment above
